@@ -48,6 +48,9 @@ Requirements for each change:
     cd {wt} && PYTHONPATH={wt} /venv/bin/python <path to demo>
   The demo must be deterministic (fix seeds) and finish in under 2 minutes.
 - Work ONLY inside {wt} and /tmp/seed_out. Never touch /repo or /verif. No network is available.
+- NEVER use `git stash` (the stash is shared by all worktrees of the repository and other people work in
+  sibling worktrees): set a change aside with `git -C {wt} diff > file`, `git -C {wt} checkout -- .`, `git apply file`.
+- Do not use `-x` with pytest; deselect the two known failures with `-k "not chocolate"`; use `-n 4`.
 
 Deliverables: for change k (k = {k0}..{k0 + n - 1}) create the directory /tmp/seed_out/{pid}_k/ containing
   patch.diff   (output of `git -C {wt} diff` for that change alone, relative to the worktree HEAD)
